@@ -159,14 +159,21 @@ static void vec_cases(vt::Rng& r, long npairs) {
       if ((op == "div" || op == "mod") && k == 0) k = 3;
       V u = mk<V, D>(uc), v = mk<V, D>(vc);
       vector<long long> res;
-      if (op == "add") res = comps<V, D>(u + v);
-      else if (op == "sub") res = comps<V, D>(u - v);
+      // every other case goes through the compound-assignment form; equal operands are then the SAME object (w += w)
+      bool cf = (c % 2) == 1, alias = cf && uc == vc;
+      auto compound = [&](auto apply) {
+        V w = u;
+        apply(w, alias ? w : v);
+        return comps<V, D>(w);
+      };
+      if (op == "add") res = cf ? compound([](V& w, const V& o) { w += o; }) : comps<V, D>(u + v);
+      else if (op == "sub") res = cf ? compound([](V& w, const V& o) { w -= o; }) : comps<V, D>(u - v);
       else if (op == "neg") res = comps<V, D>(-u);
-      else if (op == "adds") res = comps<V, D>(u + (int64_t)k);
-      else if (op == "subs") res = comps<V, D>(u - (int64_t)k);
-      else if (op == "mul") res = comps<V, D>(u * (int64_t)k);
-      else if (op == "div") res = comps<V, D>(u / (int64_t)k);
-      else if (op == "mod") res = comps<V, D>(u % (int64_t)k);
+      else if (op == "adds") res = cf ? compound([&](V& w, const V&) { w += (int64_t)k; }) : comps<V, D>(u + (int64_t)k);
+      else if (op == "subs") res = cf ? compound([&](V& w, const V&) { w -= (int64_t)k; }) : comps<V, D>(u - (int64_t)k);
+      else if (op == "mul") res = cf ? compound([&](V& w, const V&) { w *= (int64_t)k; }) : comps<V, D>(u * (int64_t)k);
+      else if (op == "div") res = cf ? compound([&](V& w, const V&) { w /= (int64_t)k; }) : comps<V, D>(u / (int64_t)k);
+      else if (op == "mod") res = cf ? compound([&](V& w, const V&) { w %= (int64_t)k; }) : comps<V, D>(u % (int64_t)k);
       else if (op == "eq") res = {u == v};
       else if (op == "ne") res = {u != v};
       else if (op == "lt") res = {u < v};
@@ -317,7 +324,18 @@ int main(int argc, char** argv) {
           B.m[x][y] = r.chance(15) ? 0 : r.range(-9, 9);
         }
       Vector4<int64_t> V(r.range(-9, 9), r.range(-9, 9), r.range(-9, 9), r.range(-9, 9));
-      Matrix4<int64_t> AB = A * B;
+      // the product through operator*, through operator*= and through operator*= with the SAME object on both sides
+      Matrix4<int64_t> AB;
+      if (i % 3 == 0) {
+        AB = A * B;
+      } else if (i % 3 == 1) {
+        AB = A;
+        AB *= B;
+      } else {
+        B = A;
+        AB = A;
+        AB *= AB;
+      }
       Vector4<int64_t> ABV = AB * V;
       Matrix4<int64_t> AT = A.transposition();
       Matrix4<int64_t> ATT = AT;
